@@ -590,6 +590,7 @@ structure St where
   mb : WMon := {}
   implSlots : Array (List EntityData) := #[]
   uuid : Bool := false
+  curRon : Bool := false                  -- format of the current case (harness default: json)
   -- statistics
   cases : Nat := 0
   lines : Nat := 0
@@ -737,7 +738,7 @@ def slLine (st : St) (line : String) : St × List String :=
   | ["case", id] =>
     let st := st.closeCase
     ({ st with caseHash := 11, caseNontrivial := false, caseId := id, lineNo := 0, model := {},
-               stopped := false, monDead := false, ma := {}, mb := {}, implSlots := #[], uuid := false,
+               stopped := false, monDead := false, ma := {}, mb := {}, implSlots := #[], uuid := false, curRon := false,
                cases := st.cases + 1 }, [])
   | lt =>
     let st := { st with lineNo := st.lineNo + 1, lines := st.lines + 1,
@@ -753,7 +754,7 @@ def slLine (st : St) (line : String) : St × List String :=
            ({ st with monDead := true, mons := st.mons + 1, diffs := st.diffs + (if st.stopped then 0 else 1), stopped := true },
             (if st.stopped then [] else
               [s!"DIFF case={st.caseId} line={st.lineNo} op=[unit_roundtrip] impl=[{r}] model=[unit kept {n} of {n}]"]) ++
-            [s!"MON C14 case={st.caseId} line={st.lineNo} a unit-struct component the marked source entities had is missing after serialise + load into an empty world ({k} of {n} carriers left) op=[unit_roundtrip]"])
+            [s!"MON C14 case={st.caseId} line={st.lineNo} a unit-struct component the marked source entities had is missing after serialise + load into an empty world ({k} of {n} carriers left) fmt={if st.curRon then "ron" else "json"} op=[unit_roundtrip]"])
        | _ =>
          if st.monDead then (st, []) else
          ({ st with monDead := true, mons := st.mons + 1 },
@@ -766,7 +767,7 @@ def slLine (st : St) (line : String) : St × List String :=
       | none => (st, [s!"BAD case={st.caseId} line={st.lineNo} unparsable result: {(r.take 200).toString}"])
       | some ires =>
         let st := match op with
-          | .cfg uuid ron => { st with uuidCases := st.uuidCases + (if uuid then 1 else 0),
+          | .cfg uuid ron => { st with curRon := ron, uuidCases := st.uuidCases + (if uuid then 1 else 0),
                                        ronCases := st.ronCases + (if ron then 1 else 0) }
           | _ => st
         -- 1. model vs implementation
